@@ -194,6 +194,8 @@ def run_h1(job):
         nnew = sum(1 for i in main.code if i.op == "new") + sum(1 for p in cbs.values() for i in p.code if i.op == "new")
         if not nnew:
             T = 0
+        elif ptype != "bar":
+            T, Bcap = max(T, 4), max(Bcap, 40)
         complete = thx.longest_path(main, 10 ** 6) + sum([T * (1 + max([thx.longest_path(p, 10 ** 6) for p in cbs.values()] + [0]))])
         B = min(Bcap, complete) if T else max(1, min(Bcap, thx.longest_path(main, 10 ** 6)))
         res["bounds"] = {"progress_type": ptype, "updates_u": u, "timer_objects_T": T, "steps_B": B,
@@ -201,8 +203,7 @@ def run_h1(job):
                          "tracked_attributes": attrs, "locks": dict(low.ci.locks), "caller_events": len(main.events()),
                          "callback_events": {n: len(p.events()) for n, p in cbs.items()}}
         res["samples"].append({"case": res["case"], "lowered_event_programs": _prog_digest(main, cbs)})
-        if ptype != "bar" and nnew:
-            res["errors"].append("progress type %s constructs threads/timers (%d sites): expected none" % (ptype, nnew))
+        res["bounds"]["timer_construction_sites"] = nnew
         if low.mismatch:
             return res
         bm = thx.Bmc(main, cbs, finit, low.ci.locks, T, B, firing=True)
@@ -214,7 +215,7 @@ def run_h1(job):
         # reachability twin: the caller can finish, and (bar) a re-arming callback can run to completion before that
         tw = [bm.reach_end()]
         if T:
-            tw.append(z3.Or(*[z3.And(bm.S[k]["ts"][i] == thx.DONE, bm.S[k]["nxt"] > 2) for k in range(B + 1) for i in range(T)]))
+            tw.append(z3.Or(*[z3.And(bm.S[k]["ts"][i] == thx.DONE, bm.S[k]["nxt"] > (2 if ptype == "bar" else 0)) for k in range(B + 1) for i in range(T)]))
         r, _, dt = _check(s, tw, job["timeout_s"])
         res["solver_s"] += dt
         res["twins"].append({"twin": "caller completes" + (" and a callback thread ran to its end after re-arming" if T else ""), "result": r})
@@ -350,7 +351,7 @@ def run_h2(job):
             res["errors"].append("reachability twin not sat (%s/%s)" % (r1, r2))
         dry = None
         for klass in ("fault", "nofault"):
-            side = [bm.any_violation(), (bm.fk != bm.NOFAULT) if klass == "fault" else (bm.fk == bm.NOFAULT)]
+            side = [bm.any_violation(True)] if klass == "fault" else [bm.any_violation(False), bm.fk == bm.NOFAULT]
             label = "no WAITING timer after the call has %s" % ("raised (fault index symbolic over %d sites)" % len(mir.sites) if klass == "fault" else "returned")
             r, m, dt = _check(s, side, job["timeout_s"])
             res["solver_s"] += dt
@@ -370,17 +371,25 @@ def run_h2(job):
             key = "%s/%s/%s" % (PROP, cid, "no-finally" if klass == "fault" else "exit-skipped-on-normal-path")
             if klass == "nofault":
                 sched, final = bm.schedule(m)
-                rr = thx_replay.run_api(driver, fn, "record", None, "bar")
-                res["replays"] += 1
-                info = {"model_final": final, "replay": {k: rr[k] for k in ("exception", "timers_alive", "threads", "returned")}}
-                if rr["returned"] and rr["timers_alive"]:
+                hit = None
+                for variant in thx_replay.VARIANTS.get(qual, [{}]):
+                    rr = thx_replay.run_api(driver, fn, "record", None, "bar", variant)
+                    res["replays"] += 1
+                    info = {"model_final": final, "variant": variant, "replay": {k: rr[k] for k in ("exception", "timers_alive", "threads", "returned")}}
+                    if rr["returned"] and rr["timers_alive"]:
+                        hit = rr
+                        break
+                if hit:
                     q["replayed"] = True
                     res["violations"].append({"label": label, "key": key, "magnitude": float(len(rr["timers_alive"])),
-                                              "values": {"kind": "H2", "api": qual, "target": target, "mode": "nofault"},
-                                              "found_by": "z3 model, replayed through the public API: timer alive after a normal return", "info": info})
+                                              "values": {"kind": "H2", "api": qual, "target": target, "mode": "nofault", "variant": variant},
+                                              "found_by": "z3 model (path without fault), replayed through the public API %s: timer alive after a normal return: %s"
+                                              % (variant or "", rr["timers_alive"]), "info": info})
+                    res["samples"].append({"case": cid, "verdict": "sat", "path": ["%s" % x["op"] for x in sched], "timers_alive": rr["timers_alive"]})
                 else:
                     q["replayed"] = False
-                    res["inconclusive"].append({"label": label, "why": "model does not reproduce", "info": info})
+                    res["inconclusive"].append({"label": label, "why": "model (a path through the function on which exit() is skipped) was not "
+                                                "reproduced by the replay driver's argument variants", "info": info})
                 continue
             # fault class: prefer a site underneath which a user callable runs (dry run with progress 'silent')
             if dry is None:
@@ -542,7 +551,7 @@ class ReplayCase(Case):
         fn = dict(thx.discover_apis(oqupy))[v["api"]]
         driver = thx_replay.DRIVERS[v["api"]]
         if v.get("mode") == "nofault":
-            rr = thx_replay.run_api(driver, fn, "record", None, "bar")
+            rr = thx_replay.run_api(driver, fn, "record", None, "bar", v.get("variant") or {})
         else:
             rr = thx_replay.run_api(driver, fn, v["mode"], (tuple(v["site_key"]), int(v["occurrence"])), "bar")
         print("replay: exception %s timers alive %s" % (rr["exception"], rr["timers_alive"]))
